@@ -52,11 +52,11 @@ def closed_models(run):
     rejected = []
     for cfg in sorted(glob.glob(os.path.join(run.specdir, "Orchestration_Weak_*.cfg"))):
         name = os.path.basename(cfg)[len("Orchestration_Weak_"):-4]
-        w = run.tlc("Orchestration", os.path.basename(cfg), workers=4, heap="3g", expect_violation=True)
+        w = run.tlc("Orchestration", os.path.basename(cfg), workers=2, heap="2g", expect_violation=True)
         if w.violated != WEAK_EXPECT.get(name):
             raise vlib.InfraError("spec mutation %s not rejected by TLC as expected (got %s)" % (name, w.violated))
         rejected.append(name)
-    w = run.tlc("Orchestration", "Orchestration_WeakLive_noUnmark.cfg", workers=4, heap="3g", expect_violation=True)
+    w = run.tlc("Orchestration", "Orchestration_WeakLive_noUnmark.cfg", workers=2, heap="2g", expect_violation=True)
     if "Live_C08_RolledBack_T was violated" not in w.stdout:
         raise vlib.InfraError("spec mutation noUnmark does not violate the liveness property")
     rejected.append("live:noUnmark")
@@ -116,15 +116,32 @@ def check(run):
                 "controller step, a transient fault, a persistent fault and a crash at that call, and a restart between any two "
                 "steps; each replayed on the real Queue.StartCommand / Queue.Reconcile / Controller.Reconcile; non-trivial = the "
                 "real trace contains a candidate delete, a failed / refused / interrupted action or a second command")
+    rng = random.Random(run.seed * 104729 + 8)
+    sel, scen_model = model_behaviours(run, rng)
+    # the closed-model runs (TLC) proceed in a background thread while the behaviours are replayed on the real code
+    import threading
+    bg = {"err": None}
+
+    def models():
+        try:
+            closed_models(run)
+        except BaseException as e:   # re-raised in the main thread
+            bg["err"] = e
+    th = None
     if os.environ.get("VERIF_FAST"):
         run.notes.append("VERIF_FAST: closed models and spec mutations skipped")
     else:
-        closed_models(run)
-    rng = random.Random(run.seed * 104729 + 8)
-    sel, scen_model = model_behaviours(run, rng)
-    scen_sys, probe_files = systematic(run, rng)
-    scen = scen_model + scen_sys
-    files = oc.record(run, scen, procs=PROCS[run.tier])
+        th = threading.Thread(target=models)
+        th.start()
+    try:
+        scen_sys, probe_files = systematic(run, rng)
+        scen = scen_model + scen_sys
+        files = oc.record(run, scen, procs=PROCS[run.tier])
+    finally:
+        if th is not None:
+            th.join()
+    if bg["err"] is not None:
+        raise bg["err"]
     summ = oc.summarise(files)
     if len(summ) != len(scen):
         raise vlib.InfraError("trace count mismatch: %d traces for %d scenarios" % (len(summ), len(scen)))
